@@ -210,7 +210,9 @@ func (it *Interp) onEvent(b *Backend, j int, e ecs.Entity, p Ptrs, typed bool) {
 			}
 		}
 	}
-	if it.Opt.Inspect {
+	if it.Opt.Inspect && !b.Pol.ExpandBatches && !b.Pol.ForceUnsafe {
+		// (a backend that replaces batches by single operations, or typed calls by ID-based ones followed by writes,
+		// reaches the same final state but not the same state at callback time)
 		it.inspect(b, j, s, e)
 	}
 	if os.UnregP1 > 0 && !b.Pol.DropObsOdd {
